@@ -174,6 +174,23 @@ func checkC08(c *Ctx, r *Report) {
 			}
 			problems := map[string]bool{}
 			matched := 0
+			// a boolean field the shape fixes must come back with that value: if every decoder
+			// path of the shape ends with the field set to the opposite constant (the flag is
+			// forced, whatever the wire says), decode(serialise(v)) ≠ v
+			for fname, want := range sh.Bools {
+				nConst, nOther := 0, 0
+				for _, d := range dps {
+					b := fieldBits(d)[fname]
+					if b != nil && b.Tag == "" && len(b.Bits) == 1 && (b.Bits[0].K == '0' || b.Bits[0].K == '1') && (b.Bits[0].K == '1') != want {
+						nConst++
+					} else {
+						nOther++
+					}
+				}
+				if nConst > 0 && nOther == 0 {
+					problems[fmt.Sprintf("every decoder path of this shape sets %s to %v whatever the wire holds, the serialised value had %v", fname, !want, want)] = true
+				}
+			}
 			for _, s := range sps {
 				wb := wireBits(s, L.Buf)
 				for _, d := range dps {
@@ -478,6 +495,15 @@ var serialisedEncodings = []minimalEncoding{
 	{Pkg: "pkg/ipmi", Type: "V2Session", Method: "DecodeFromBytes", Name: "empty unauthenticated payload", Len: 12, Bytes: map[int64]int64{0: 6, 1: 0, 10: 0, 11: 0}, Ref: "IPMI v2.0 §13.6"},
 	{Pkg: "pkg/ipmi", Type: "V2Session", Method: "DecodeFromBytes", Name: "empty unauthenticated OEM payload", Len: 18, Bytes: map[int64]int64{0: 6, 1: 2, 16: 0, 17: 0}, Ref: "IPMI v2.0 §13.6 (OEM IANA and payload ID present for payload type 2)"},
 	{Pkg: "pkg/ipmi", Type: "V1Session", Method: "DecodeFromBytes", Name: "empty unauthenticated payload", Len: 10, Bytes: map[int64]int64{0: 0, 9: 0}, Ref: "IPMI v2.0 §13.6 (v1.5 format, authentication type none)"},
+	// the IPMI message with nothing after its header, per network-function class: 6 header bytes
+	// + checksum 2, + completion code in responses, + the group body code / the 3-byte OEM
+	// enterprise number
+	{Pkg: "pkg/ipmi", Type: "Message", Method: "DecodeFromBytes", Name: "request with an empty body", Len: 7, Bytes: map[int64]int64{1: 0x06 << 2}, Ref: "IPMI v2.0 §13.8"},
+	{Pkg: "pkg/ipmi", Type: "Message", Method: "DecodeFromBytes", Name: "response with an empty body", Len: 8, Bytes: map[int64]int64{1: 0x07 << 2}, Ref: "IPMI v2.0 §13.8"},
+	{Pkg: "pkg/ipmi", Type: "Message", Method: "DecodeFromBytes", Name: "group-extension request carrying only the body code", Len: 8, Bytes: map[int64]int64{1: 0x2c << 2}, Ref: "IPMI v2.0 §5.1, §13.8"},
+	{Pkg: "pkg/ipmi", Type: "Message", Method: "DecodeFromBytes", Name: "group-extension response carrying only the body code", Len: 9, Bytes: map[int64]int64{1: 0x2d << 2}, Ref: "IPMI v2.0 §5.1, §13.8"},
+	{Pkg: "pkg/ipmi", Type: "Message", Method: "DecodeFromBytes", Name: "OEM request carrying only the enterprise number", Len: 10, Bytes: map[int64]int64{1: 0x2e << 2}, Ref: "IPMI v2.0 §5.1, §13.8"},
+	{Pkg: "pkg/ipmi", Type: "Message", Method: "DecodeFromBytes", Name: "OEM response carrying only the enterprise number", Len: 11, Bytes: map[int64]int64{1: 0x2f << 2}, Ref: "IPMI v2.0 §5.1, §13.8"},
 	{Pkg: "pkg/ipmi", Type: "RAKPMessage1", Method: "DecodeFromBytes", Name: "empty username", Len: 28, Bytes: map[int64]int64{27: 0}, Ref: "IPMI v2.0 §13.20"},
 	{Pkg: "pkg/ipmi", Type: "RAKPMessage1", Method: "DecodeFromBytes", Name: "16-byte username", Len: 44, Bytes: map[int64]int64{27: 16}, Ref: "IPMI v2.0 §13.20"},
 }
